@@ -20,7 +20,7 @@ var lifeBase = time.Unix(1_700_000_000, 0)
 
 var (
 	lifeTTLs = []string{ttlZero, "1s", "2s", "90s"}
-	lifeKeys = []string{"s1", "s2", "l1", "h1", "h1"}
+	lifeKeys = []string{"s1", "s2", "l1", "h1", "h1", "c1", "c1"}
 )
 
 func lifeWriterTag(op Op, class string, got Res) string {
@@ -33,6 +33,10 @@ func lifeWriterTag(op Op, class string, got Res) string {
 	case "SetHash":
 		if !live {
 			return "SetHash(create)[default-24h]"
+		}
+	case "Incr", "IncrBy":
+		if !live {
+			return op.Kind + "(create)[default-24h]"
 		}
 	case "Set", "SetList":
 		return op.Kind + ttl
@@ -224,7 +228,21 @@ func TestRedisLifetimes(t *testing.T) {
 		for i := 0; i < n; i++ {
 			k := rapid.SampledFrom(lifeKeys).Draw(t, "key")
 			op := Op{Key: k, TTL: rapid.SampledFrom(lifeTTLs).Draw(t, "ttl")}
-			if k == "h1" {
+			if k == "c1" {
+				// counters: Incr/IncrBy on an absent key gives the 24 h default, on an existing counter it must
+				// leave the lifetime alone (also "none" after SetExpiration 0). Increments are positive, so
+				// an existing counter never equals its increment (Redis' own test for "new key").
+				op.Kind = rapid.SampledFrom([]string{"Incr", "Incr", "IncrBy", "SetExpiration", "SetExpiration", "Delete"}).Draw(t, "op")
+				if op.Kind == "SetExpiration" && !cur(k).Present {
+					op.Kind = "Incr"
+				}
+				if op.Kind != "SetExpiration" {
+					op.TTL = ""
+				}
+				if op.Kind == "IncrBy" {
+					op.N = int64(rapid.IntRange(1, 10).Draw(t, "delta"))
+				}
+			} else if k == "h1" {
 				// hashes: SetHash on an absent key gives the 24 h default, on an existing key it must leave
 				// the lifetime alone. A hash that exists always gets a NEW field, so that it never has
 				// exactly one field after HSET (Redis' own test for "new key", see check.json).
